@@ -691,7 +691,7 @@ func c01f(c *Ctx, a *absVariant) {
 			}
 			return true
 		})
-		okOpt = len(as) == 2 && as[0] == param+" under []" && as[1] == "g.rules[0].name under ["+param+`==""]`
+		okOpt = len(as) == 2 && as[0] == param+" under []" && (as[1] == "g.rules[0].name under ["+param+`==""]` || as[1] == "g.rules[0].name under [len("+param+")==0]")
 	}
 	if np != nil {
 		ast.Inspect(np.Body, func(n ast.Node) bool {
